@@ -689,3 +689,20 @@ Definition serve (v : variant) (cf : config) (q : query) (down : option (msg * N
       | Some (m, mark) => write_msg v c m mark work al
       end
   end.
+
+(* ------------------------------------------------------------------ *)
+(* The production composition (what the UDP driver runs): server ->
+   pipeline [dns64; next] -> the auto-wired middleware.pipelineQueryer,
+   which runs the secondary query through the sub-pipeline without the
+   ClientOnly handlers, i.e. through the same next handler.  For the
+   sub-query that handler writes nothing, or a message with a marker:
+   pipelineQueryer.Query turns "nothing" into ErrNoResponse and a
+   request-local marker into the marked error. *)
+Inductive sub_script := SubNothing | SubWrite (m : msg) (mark : N).
+Definition al_of_script (s : sub_script) : alookup :=
+  match s with
+  | SubNothing => QErr 2
+  | SubWrite m mark => if mark =? 2 then QErr 1 else if mark =? 3 then QErr 2 else QResp m
+  end.
+Definition serve_wire (cf : config) (q : query) (down : option (msg * N)) (s : sub_script) : result :=
+  serve cur cf q down false (al_of_script s).
